@@ -600,6 +600,9 @@ pub enum Sc {
     OwnWrite,
     AutoCommit,
     UnrelatedCommit,
+    /// reader began, then an unrelated commit advanced the epoch, then the writer began: the
+    /// writer's versions carry a later epoch than the reader's snapshot
+    SnapshotAcrossCommit,
     // C02
     Rollback,
     Drop,
@@ -617,6 +620,7 @@ impl Sc {
             Sc::OwnWrite => "own_write",
             Sc::AutoCommit => "autocommit",
             Sc::UnrelatedCommit => "after_unrelated_commit",
+            Sc::SnapshotAcrossCommit => "snapshot_across_epoch_bump",
             Sc::Rollback => "rollback",
             Sc::Drop => "session_dropped",
             Sc::FailedCommit => "failed_commit",
@@ -727,6 +731,17 @@ pub fn run_scenario(sc: Sc, w: W, regime: Regime, fail_commit: &dyn Fn(bool)) ->
             chk("commit x", x.commit());
             chk("begin reader", rd.begin_tx());
             obs.push(observe("read_in_tx", &rd, &fx, true, true));
+        }
+        Sc::SnapshotAcrossCommit => {
+            chk("begin reader", rd.begin_tx());
+            let mut x = fx.db.session();
+            chk("begin x", x.begin_tx());
+            chk("commit x", x.commit());
+            chk("begin", wr.begin_tx());
+            write_error = w.apply(&wr, &mut fx).err();
+            obs.push(observe("read_while_foreign_open", &rd, &fx, false, false));
+            chk("commit", wr.commit());
+            obs.push(observe("read_after_foreign_commit", &rd, &fx, false, true));
         }
         Sc::Rollback => {
             chk("begin", wr.begin_tx());
